@@ -20,7 +20,7 @@ from utype.utils import exceptions as uexc   # noqa: E402
 
 ID = "C18"
 LEVEL = "model_checking"
-RULE = ("(a) 13 recursive declarations (Optional['N'], 'N' = None, List['N'], Tuple['N', ...], Dict[str, 'N'], Union[int, 'N'], "
+RULE = ("(a) 15 recursive declarations (an outer class whose override=True options carry the limit for a nested class without / with a larger one, Optional['N'], 'N' = None, List['N'], Tuple['N', ...], Dict[str, 'N'], Union[int, 'N'], "
         "any_of('N', None), mutual recursion through a second class, List[Optional['N']], @utype.dataclass, DataClass base, a declared "
         "__init__ on a decorated class and on a Schema) x max_depth in {None, 1, 2, 3, 4} x inputs of "
         "data-class depth 1..6 with the nested value at list index 0 / 1 / 2, mapping key 'k' / '' / '0', either union branch, plain or "
@@ -55,6 +55,11 @@ DECLS = {
                     "    def __init__(self, v: int = 0, nxt: Optional['N'] = None):\n        self.v = v\n        self.nxt = nxt\n", "N", "nxt"),
     "custom-init-schema": ("class N(Schema):\n{opt}    v: int = 0\n    kids: List['N'] = Field(default_factory=list)\n"
                            "    def __init__(self, v: int = 0, kids: List['N'] = ()):\n        super().__init__(v=v, kids=kids)\n", "N", "kids[]"),
+    # the options of an outer class that overrides (override=True) are the ones in force for every nested class
+    "override-outer": ("class N(Schema):\n    v: int = 0\n    nxt: Optional['N'] = None\n"
+                       "class Outer(Schema):\n{opt_override}    v: int = 0\n    nxt: Optional[N] = None\n", "Outer", "nxt"),
+    "override-outer-list": ("class N(Schema):\n    __options__ = Options(max_depth=50)\n    v: int = 0\n    kids: List['N'] = Field(default_factory=list)\n"
+                            "class Outer(Schema):\n{opt_override}    v: int = 0\n    kids: List[N] = Field(default_factory=list)\n", "Outer", "kids[]"),
     "list-optional": ("class N(Schema):\n{opt}    v: int = 0\n    kids: List[Optional['N']] = Field(default_factory=list)\n", "N", "kids[]"),
 }
 LIMITS = [None, 1, 2, 3, 4]
@@ -184,7 +189,8 @@ def _depth(acc, dname, tier):
     maxd = _max_input_depth(tier)
     for limit in _limits(tier):
         opt = f"    __options__ = Options(max_depth={limit})\n" if limit else ""
-        src = tmpl.format(opt=opt)
+        opt_override = f"    __options__ = Options(max_depth={limit}, override=True)\n" if limit else ""
+        src = tmpl.format(opt=opt, opt_override=opt_override)
         mod = load(src)
         cls = mod.__dict__[root]
         cases = []
